@@ -215,6 +215,50 @@ def _check_date(e):
                 cols["sum_ges_rente_priv_rente_m"] = _val(r.model, pvar)
                 kw = {"cols": cols, "targets": [pn], "kind": "cap-ceiling", "ceiling": _val(r.model, p2), "ceiling_col": "sum_ges_rente_priv_rente_m"}
             put(f"C {pn} never exceeds its value at the assessment ceiling of the pension sum (rate x ceiling)", st, r.backend, r.seconds, "", **kw)
+    # caps a parameter encodes directly for one column
+    from contracts import nodes as cnodes
+
+    for node, grp, path in cnodes.PARAM_CAPS:
+        if node not in df.summaries:
+            continue
+        v = e.params.get(grp, {})
+        try:
+            for k in path:
+                v = v[k]
+        except (KeyError, TypeError):
+            continue
+        if isinstance(v, bool) or not isinstance(v, (int, float)):
+            continue
+        sm = df.summaries[node]
+        pre = df.pre_of(list(sm.args))
+        try:
+            res = symx.real_term(sm.result, pre)
+        except (symx.Unsupported, symx.InfiniteValue) as ex:
+            put(f"C {node} <= {grp}.{'.'.join(map(str, path))}", "unsupported", detail=repr(ex)[:200])
+            continue
+        r = solve.check([*pre, res > symx.frac_to_z3real(Fraction(repr(float(v))))], 30)
+        st = {"unsat": "discharged", "sat": "refuted"}.get(r.status, "unknown")
+        kw = {}
+        if st == "refuted":
+            kw = {"cols": rules.model_inputs(r.model, sm), "targets": [node], "kind": "cap", "bound": float(v)}
+        put(f"C {node} never exceeds the cap {grp}.{'.'.join(map(str, path))}", st, r.backend, r.seconds, "", **kw)
+    # solidarity surcharge <= nominal rate x tax (+ 1 cent): the schedule lemma of C18, on the real _soli_st_tarif
+    sp = e.params.get("soli_st", {}).get("soli_st")
+    if isinstance(sp, dict) and {"thresholds", "rates", "intercepts_at_lower_thresholds"} <= set(sp):
+        try:
+            from props import C18 as c18
+            from specs import piecewise_spec as pws
+
+            spec = pws.from_arrays(sp["thresholds"], sp["rates"], sp["intercepts_at_lower_thresholds"])
+            for o in c18._z3_soli(e, spec):
+                if "nominal rate" not in o["name"]:
+                    continue
+                kw = {}
+                if o["status"] == "refuted" and "x" in o:
+                    kw = {"cols": {"st_per_individual": o["x"]}, "targets": ["_soli_st_tarif"], "kind": "soli-cap", "bound": float(spec["rates"][0][-1]) * o["x"] + 0.01}
+                put("C solidarity surcharge never exceeds its nominal rate times the tax by more than one cent", o["status"], o["backend"], o["seconds"], o.get("detail", ""), **kw)
+        except Exception as ex:  # noqa: BLE001
+            put("C solidarity surcharge cap", "unsupported", detail=repr(ex)[:200])
     # Grundrente supplement
     g = "grundr_zuschlag_vor_eink_anr_m"
     if g in T and "ges_rente" in e.params and "grundr_zugangsfaktor_max" in e.params["ges_rente"]:
@@ -251,6 +295,11 @@ def _worker(dates):
 
 def api_replay(it):
     e = venv.Env(datetime.date.fromisoformat(it["date"]))
+    if it.get("kind") == "soli-cap":
+        from _gettsim.taxes.soli_st import _soli_st_tarif
+
+        val = float(_soli_st_tarif(it["cols"]["st_per_individual"], e.params["soli_st"]))
+        return bool(val > it["bound"] + 1e-9), {"value": val, "bound": it["bound"]}
     df = popgen.to_frame([popgen.person(0, 0)])
     for k, v in it["cols"].items():
         if k.endswith("_id") or isinstance(v, str):
